@@ -132,15 +132,14 @@ Definition until_exit_undone (s : cstate) : bool :=
   | _ => false
   end.
 
-(* an await loop deeper in the stack whose target is done while the loop on top still waits *)
-Fixpoint has_done_until (ts : list (task locals nat)) (k : list (frame locals globals nat)) : bool :=
+(* some await loop in the stack has a finished target but lies beneath an await loop whose target is
+   not finished: the first cannot return before the second does (the C++ stack is LIFO) *)
+Fixpoint done_under_undone (ts : list (task locals nat)) (k : list (frame locals globals nat)) (undone_above : bool) : bool :=
   match k with
   | [] => false
-  | FUntil _ _ _ w :: r => is_done _ _ w ts || has_done_until ts r
-  | _ :: r => has_done_until ts r
+  | FUntil _ _ _ w :: r =>
+      if is_done _ _ w ts then undone_above || done_under_undone ts r undone_above
+      else done_under_undone ts r true
+  | _ :: r => done_under_undone ts r undone_above
   end.
-Definition lifo_delay (s : cstate) : bool :=
-  match kont _ _ _ s with
-  | FCycle _ _ _ :: FUntil _ _ _ w :: r => negb (is_done _ _ w (tasks _ _ _ s)) && has_done_until (tasks _ _ _ s) r
-  | _ => false
-  end.
+Definition lifo_delay (s : cstate) : bool := done_under_undone (tasks _ _ _ s) (kont _ _ _ s) false.
